@@ -46,6 +46,26 @@ def run(check, tier):
     n = 1500 if tier == "quick" else 60000
     cases = [structured(check.seed, i) for i in range(n)] + [S.gen_case(check.seed, i, "control") for i in range(n // 2)]
     interp_common.run_interp_cases(check, cases, "C13 profile", owns=["returned lines", "variables", "match_count", "scan_count", "validity", "printouts"])
+    # stop()/skip() next to a component with the onmatch look-ahead: judged directly on what the user sees
+    import lookahead_suite as LS
+    from core import run_cases
+
+    lcases = [LS.gen_case(check.seed, i) for i in range(400 if tier == "quick" else 20000)]
+    nla = 0
+    for res in run_cases("lookahead_suite", "case", lcases, chunk=16):
+        if "infra_error" in res:
+            check.infra.append(res["infra_error"] + res.get("trace", "")[-600:])
+            continue
+        if res.get("skipped"):
+            check.count("lookahead_skipped_" + str(res["skipped"]))
+            continue
+        check.evaluations += 1
+        nla += 1
+        if res.get("nontrivial"):
+            check.nontriv(["lookahead", res["case"]["match"], res["case"]["fire"], len(res["case"]["recs"])])
+        if res["oracle"]:
+            check.violation(res["oracle"][0]["what"], {"input": res["case"], "csvpath": res["text"], "oracle": res["oracle"][:3]})
+    check.extra["lookahead_cases"] = nla
     kinds = {}
     for c in cases:
         kinds[c.get("kind", "generated")] = kinds.get(c.get("kind", "generated"), 0) + 1
